@@ -461,4 +461,41 @@ def rule_i(ctx: Ctx) -> None:
                 '`with <lock>` and inside an `if` whose test repeats the test outside the lock.')
 
 
-RULES = [rule_a, rule_b, rule_c, rule_d, rule_e, rule_f, rule_g, rule_h, rule_i]
+SCRATCH_VERDICT_OK = {
+    'xmlschema.validators.elements.XsdElement.data_value':
+        'XPath fn:data() of an empty element (XSD 1.1 assertions): asks for the empty string only; the answer is a property of the type, the window is one call wide - reviewed, '
+        'no failing schedule exhibited',
+}
+
+
+def rule_j(ctx: Ctx) -> None:
+    """`text_is_valid(text)` without a context decodes into the *schema-wide* scratch context and then reads its error list: a verdict taken from state that every
+    thread validating with the schema clears and fills.  That is fine while the schema is built (one thread); at validation time the per-call context must be
+    handed on, otherwise another thread's clear() or error decides the answer."""
+    rule = 'C18.j'
+    from .c10 import graph
+    eff, cg, prev, roots, _ = graph(ctx)
+    n = m = 0
+    for q in sorted(prev):
+        f = ctx.idx.functions[q]
+        if isinstance(f.node, ast.Lambda) or f.name in ('text_is_valid', 'is_valid'):
+            continue
+        for c in calls(f.node):
+            if not (isinstance(c.func, ast.Attribute) and c.func.attr == 'text_is_valid'):
+                continue
+            n += 1
+            has_ctx = len(c.args) >= 2 or any(k.arg == 'context' for k in c.keywords)
+            if has_ctx:
+                continue
+            m += 1
+            ok = q in SCRATCH_VERDICT_OK
+            ctx.ob(rule, f'{q.split(".", 2)[-1]}: `{text(c)[:50]}` at validation time takes its verdict from the caller\'s context', f.loc(c), ok,
+                   SCRATCH_VERDICT_OK.get(q, '') if ok else 'no context argument: the verdict is read from schema.validation_context, shared by all threads - while one thread is between '
+                   'the decode and the read of .errors another thread\'s run clears the list or adds its own error: a valid document gets a spurious error (or an invalid one passes)',
+                   key=f'{q}|scratch-verdict', nontrivial=not ok)
+    ctx.floor(rule, 'validation-time functions inspected', len(prev), 100)
+    ctx.note(f'{rule}: {n} text_is_valid call(s) in validation-time functions, {m} without a context')
+    ctx.explain('C18.j: in the functions reachable from the validation entry points (typed call graph) every call of text_is_valid passes a context, except the reviewed sites.')
+
+
+RULES = [rule_a, rule_b, rule_c, rule_d, rule_e, rule_f, rule_g, rule_h, rule_i, rule_j]
